@@ -4,12 +4,12 @@
 set -e
 cd "$(dirname "$0")/.."
 V=.venv
-if [ ! -x $V/bin/python ] || ! $V/bin/python -c "import z3, sympy, mpmath, jsonschema, numpy, autograd" 2>/dev/null; then
+if [ ! -x $V/bin/python ] || ! $V/bin/python -c "import z3, sympy, mpmath, jsonschema, numpy, scipy, autograd" 2>/dev/null; then
   rm -rf $V
   /venv/bin/python -m venv $V
   PIP_NO_INDEX=1 $V/bin/pip install -q --no-index --find-links /opt/veriftools/wheels \
-      z3-solver sympy mpmath jsonschema cvc5 >/dev/null
+      z3-solver sympy mpmath jsonschema cvc5 scipy >/dev/null
   SP=$($V/bin/python -c "import sysconfig; print(sysconfig.get_paths()['purelib'])")
   echo "import site; site.addsitedir('/venv/lib/python3.12/site-packages')" > "$SP/zz_suite_overlay.pth"
 fi
-$V/bin/python -c "import z3, sympy, mpmath, jsonschema, numpy, autograd; print('verif venv ok: z3', z3.get_version_string(), 'numpy', numpy.__version__, 'autograd from', autograd.__file__)"
+$V/bin/python -c "import z3, sympy, mpmath, jsonschema, numpy, scipy, autograd; print('verif venv ok: z3', z3.get_version_string(), 'numpy', numpy.__version__, 'autograd from', autograd.__file__)"
